@@ -12,6 +12,8 @@ use std::io::Write;
 use std::path::{Path, PathBuf};
 use std::time::Duration;
 
+mod dest;
+
 fn snapshot(root: &Path) -> BTreeMap<String, String> {
     let mut m = BTreeMap::new();
     fn walk(root: &Path, dir: &Path, m: &mut BTreeMap<String, String>) {
@@ -301,9 +303,13 @@ pub fn run(rep: &mut Report) {
             );
         }
     }
+    dest::run(rep);
 }
 
 pub fn replay(rep: &mut Report, _case: &serde_json::Value) {
+    if _case["op"].as_str().map(|o| o.starts_with("dest.")).unwrap_or(false) {
+        return dest::replay(rep, _case);
+    }
     rep.notes.push("sandbox replays: re-run ./check C19 with the same seed; the entry names are in the replay file".into());
 }
 
